@@ -46,6 +46,7 @@ import (
 	"testing"
 	"time"
 
+	"github.com/gogo/protobuf/proto"
 	"github.com/kardiachain/go-kardia/configs"
 	cstypes "github.com/kardiachain/go-kardia/consensus/types"
 	"github.com/kardiachain/go-kardia/kai/kaidb"
@@ -60,6 +61,7 @@ import (
 	"github.com/kardiachain/go-kardia/mainchain/staking"
 	"github.com/kardiachain/go-kardia/mainchain/tx_pool"
 	kproto "github.com/kardiachain/go-kardia/proto/kardiachain/types"
+	"github.com/kardiachain/go-kardia/trie"
 	"github.com/kardiachain/go-kardia/types"
 	"github.com/kardiachain/go-kardia/types/evidence"
 )
@@ -68,11 +70,11 @@ import (
 // flags and the two tiny helpers copied from verif/harness/internal/{gen,out}
 
 var (
-	crSeed  = flag.Uint64("seed", 1, "PRNG seed")
-	crN     = flag.Int("n", 4, "number of generated cases (scenarios)")
-	crDir   = flag.String("out", "", "output directory")
-	crOnly  = flag.Int("only", -1, "generate and run only this case index")
-	crTier  = flag.String("tier", "quick", "quick|thorough")
+	crSeed      = flag.Uint64("seed", 1, "PRNG seed")
+	crN         = flag.Int("n", 4, "number of generated cases (scenarios)")
+	crDir       = flag.String("out", "", "output directory")
+	crOnly      = flag.Int("only", -1, "generate and run only this case index")
+	crTier      = flag.String("tier", "quick", "quick|thorough")
 	crFactsFlag = flag.String("facts", "", "unused (no source-derived facts for C05)")
 )
 
@@ -201,6 +203,7 @@ type crWrite struct {
 	nsigs   int // number of signatures requested before this entry
 	nacted  int // number of own messages acted upon before this entry
 	walMsgs int // number of WAL messages (records) covered by walLen
+	aux     int // block: 1 if the saved block carries transactions; head: 1 if the head pointer names a block never saved
 }
 
 type crSig struct {
@@ -242,9 +245,50 @@ type crRec struct {
 	walDur int // durable prefix
 	notify chan struct{}
 	frozen bool
+	saved  map[common.Hash]bool // hashes with a hash->height entry (blocks saved with WriteBlock)
 }
 
-func crNewRec() *crRec { return &crRec{notify: make(chan struct{}, 1)} }
+func crNewRec() *crRec {
+	return &crRec{notify: make(chan struct{}, 1), saved: map[common.Hash]bool{}}
+}
+
+// process-wide (one case per process): transactions per block hash (from the node's own block
+// parts) and the hashes of the blocks ever saved with WriteBlock
+var (
+	crKnownMu  sync.Mutex
+	crBlockTxs = map[common.Hash]int{}
+	crPartAcc  = map[string][]byte{}
+)
+
+func crNoteParts(m *BlockPartMessage) {
+	if m.Part == nil {
+		return
+	}
+	crKnownMu.Lock()
+	defer crKnownMu.Unlock()
+	key := fmt.Sprintf("%d/%d/%x", m.Height, m.Round, m.Part.Proof.LeafHash)
+	_ = key
+	acc := fmt.Sprintf("%d/%d/%d", m.Height, m.Round, m.Part.Proof.Total)
+	if m.Part.Index == 0 {
+		crPartAcc[acc] = nil
+	}
+	crPartAcc[acc] = append(crPartAcc[acc], m.Part.Bytes...)
+	if uint64(m.Part.Index)+1 == uint64(m.Part.Proof.Total) {
+		var pbb = new(kproto.Block)
+		if err := proto.Unmarshal(crPartAcc[acc], pbb); err == nil {
+			if b, err := types.BlockFromProto(pbb, trie.NewStackTrie(nil)); err == nil {
+				crBlockTxs[b.Hash()] = len(b.Transactions())
+			}
+		}
+		delete(crPartAcc, acc)
+	}
+}
+
+func crTxsOf(h common.Hash) int {
+	crKnownMu.Lock()
+	defer crKnownMu.Unlock()
+	return crBlockTxs[h]
+}
 
 func (r *crRec) ping() {
 	select {
@@ -261,6 +305,23 @@ func (r *crRec) addDB(ops []crOp) {
 	if !r.frozen {
 		w := crWrite{ops: ops, walLen: r.walDur, walBuf: r.walBuf, nsigs: len(r.sigs), nacted: len(r.acted)}
 		w.kind, w.height, w.desc = crClassify(ops)
+		for _, op := range ops {
+			if op.del {
+				continue
+			}
+			if len(op.k) == 33 && op.k[0] == 'H' {
+				h := common.BytesToHash(op.k[1:])
+				r.saved[h] = true
+				if w.kind == "block" && crTxsOf(h) > 0 {
+					w.aux = 1
+				}
+			}
+		}
+		for _, op := range ops {
+			if !op.del && string(op.k) == "LastBlock" && !r.saved[common.BytesToHash(op.v)] {
+				w.aux = 1
+			}
+		}
 		r.log = append(r.log, w)
 	}
 	r.mu.Unlock()
@@ -529,9 +590,18 @@ func crWalMsgTok(m WALMessage) string {
 		}
 		switch mm := x.Msg.(type) {
 		case *ProposalMessage:
-			return fmt.Sprintf("prop:%d:%d", mm.Proposal.Height, mm.Proposal.Round)
+			return fmt.Sprintf("prop:%d:%d:#%x", mm.Proposal.Height, mm.Proposal.Round, mm.Proposal.POLBlockID.Hash[:])
 		case *BlockPartMessage:
-			return fmt.Sprintf("part:%d:%d", mm.Height, mm.Round)
+			ph := common.Hash{}
+			if mm.Part != nil && mm.Part.Proof.Total == 1 {
+				var pbb = new(kproto.Block)
+				if err := proto.Unmarshal(mm.Part.Bytes, pbb); err == nil {
+					if b, err := types.BlockFromProto(pbb, trie.NewStackTrie(nil)); err == nil {
+						ph = b.Hash()
+					}
+				}
+			}
+			return fmt.Sprintf("part:%d:%d:#%x", mm.Height, mm.Round, ph[:])
 		case *VoteMessage:
 			n := "b"
 			if mm.Vote.BlockID.Hash.IsZero() {
@@ -577,6 +647,9 @@ func (w *crWAL) note(m WALMessage, sync bool) {
 			r.log = append(r.log, e)
 		}
 		if mi, ok := m.(msgInfo); ok && mi.PeerID == "" {
+			if bp, ok := mi.Msg.(*BlockPartMessage); ok {
+				crNoteParts(bp)
+			}
 			a := crActed{at: len(r.log), end: end, durable: end <= r.walDur}
 			switch mm := mi.Msg.(type) {
 			case *ProposalMessage:
@@ -737,24 +810,24 @@ func (e *crEnv) cacheConfig() *blockchain.CacheConfig {
 }
 
 type crNode struct {
-	env    *crEnv
-	rec    *crRec
-	db     *crDB
-	dir    string
-	bc     *blockchain.BlockChain
-	store  cstate.Store
-	txPool *tx_pool.TxPool
-	bo     *blockchain.BlockOperations
-	cs     *ConsensusState
-	eb     *types.EventBus
-	wal    *crWAL
-	ccfg   *configs.ConsensusConfig
-	state0 cstate.LatestBlockState // state the node was started from
-	stage  string                  // last assembly stage reached
-	failed string                  // panic / error text of a failed start
-	boHt   uint64                  // BlockOperations.Height() at start
-	hh0    int64                   // head height right after NewBlockChain (its repair included)
-	startLogs []string             // captured log records of OnStart (catchupReplay, repair)
+	env       *crEnv
+	rec       *crRec
+	db        *crDB
+	dir       string
+	bc        *blockchain.BlockChain
+	store     cstate.Store
+	txPool    *tx_pool.TxPool
+	bo        *blockchain.BlockOperations
+	cs        *ConsensusState
+	eb        *types.EventBus
+	wal       *crWAL
+	ccfg      *configs.ConsensusConfig
+	state0    cstate.LatestBlockState // state the node was started from
+	stage     string                  // last assembly stage reached
+	failed    string                  // panic / error text of a failed start
+	boHt      uint64                  // BlockOperations.Height() at start
+	hh0       int64                   // head height right after NewBlockChain (its repair included)
+	startLogs []string                // captured log records of OnStart (catchupReplay, repair)
 }
 
 func crGuard(f func()) (panicked string) {
@@ -791,6 +864,11 @@ func crStartNode(env *crEnv, mem *memorydb.Database, walBytes []byte, rec *crRec
 	}
 	nd.dir = dir
 	nd.db = &crDB{inner: mem, rec: rec}
+	for it := mem.NewIterator([]byte("H"), nil); it.Next(); {
+		if k := it.Key(); len(k) == 33 {
+			rec.saved[common.BytesToHash(k[1:])] = true
+		}
+	}
 	ccfg := configs.TestConsensusConfig()
 	ccfg.RootDir = dir
 	ccfg.TimeoutPropose = 400 * time.Millisecond
@@ -966,7 +1044,6 @@ func (nd *crNode) hrs() (uint64, uint32, cstypes.RoundStepType) {
 	rs := nd.cs.GetRoundState()
 	return rs.Height, rs.Round, rs.Step
 }
-
 
 // ---------------------------------------------------------------------------------------------
 // capture of the few log records that are the only place where the code reports the outcome of
@@ -1197,10 +1274,10 @@ func crCut(base *crImg, l *crLife, j int, tail string) *crImg {
 // facts read directly from a database (crash image or final state), with rawdb accessors only
 
 type crFacts struct {
-	hs     uint64            // block store height: highest contiguous height with a block meta
-	hh     int64             // height of the block the head pointer names (-1: no head pointer / dangling)
-	hcMax  int64             // highest height with a consensus-state record (-1: none)
-	hcHead bool              // consensus-state record present at the head height
+	hs     uint64 // block store height: highest contiguous height with a block meta
+	hh     int64  // height of the block the head pointer names (-1: no head pointer / dangling)
+	hcMax  int64  // highest height with a consensus-state record (-1: none)
+	hcHead bool   // consensus-state record present at the head height
 	canon  map[uint64]common.Hash
 	meta   map[uint64]common.Hash
 	app    map[uint64]common.Hash
@@ -1733,25 +1810,20 @@ func crNRecs(l *crLife, n int) int {
 func crLifeLines(o *crOut, id int, parent string, l *crLife, baseRecs int) {
 	var ks []string
 	for _, rc := range l.recs {
-		ks = append(ks, rc.tok)
+		t := rc.tok
+		if i := strings.Index(t, ":#"); i >= 0 {
+			// block hash -> does the block carry transactions
+			t = fmt.Sprintf("%s:%d", t[:i], crB(crTxsOf(common.HexToHash(t[i+2:])) > 0))
+		}
+		ks = append(ks, t)
 	}
 	o.InOnly(fmt.Sprintf("LIFE %d %s %d %d", id, parent, len(l.log), len(l.recs)))
 	o.InOnly("RECS " + strings.Join(ks, " "))
 	for _, w := range l.log {
-		// number of this life's records durable / handed to the WAL when the entry was made
-		nd, nb := 0, 0
-		for _, rc := range l.recs {
-			if rc.end <= w.walLen {
-				nd++
-			}
-			if rc.end <= w.walBuf {
-				nb++
-			}
-		}
 		if w.wal {
-			o.InOnly(fmt.Sprintf("W wal %d %d", nd, nb))
+			o.InOnly(fmt.Sprintf("W wal %d", crNRecs(l, w.walLen)))
 		} else {
-			o.InOnly(fmt.Sprintf("W db %s %d %d %d", w.kind, w.height, nd, nb))
+			o.InOnly(fmt.Sprintf("W db %s %d %d", w.kind, w.height, w.aux))
 		}
 	}
 }
@@ -1794,7 +1866,7 @@ func crRunCase(o *crOut, idx int, r *crRand, tier string) {
 	rec := crNewRec()
 	nd := crStartNode(env, memorydb.New(), nil, rec)
 	if nd.failed != "" {
-		o.Case(idx, fmt.Sprintf("CASE %d %d %d %d %d -", idx, crB(sc.archive), crB(sc.snapshot), sc.heights, crB(c.appFixed)))
+		o.Case(idx, fmt.Sprintf("CASE %d %d %d %d %d", idx, crB(sc.archive), crB(sc.snapshot), sc.heights, crB(c.appFixed)))
 		o.Fail(0, "first-start-fails", fmt.Sprintf("cause=stage-%s-%s %s", nd.stage, crPanicClass(nd.failed), strings.Split(nd.failed, "\n")[0]))
 		nd.kill()
 		return
@@ -1826,18 +1898,7 @@ func crRunCase(o *crOut, idx int, r *crRand, tier string) {
 	c.life0 = crLifeOf(rec, nd.walBytes())
 	c.facts0 = crReadFacts(nd.db.inner)
 	l := c.life0
-	// which blocks of the first life carried transactions (the re-created proposal differs there)
-	var txd []string
-	for h := uint64(1); h <= c.facts0.hs+1; h++ {
-		n := 0
-		crGuard(func() {
-			if b := rawdb.ReadBlock(nd.db.inner, h); b != nil {
-				n = len(b.Transactions())
-			}
-		})
-		txd = append(txd, fmt.Sprint(n))
-	}
-	o.Case(idx, fmt.Sprintf("CASE %d %d %d %d %d %s", idx, crB(sc.archive), crB(sc.snapshot), sc.heights, crB(c.appFixed), strings.Join(txd, ",")))
+	o.Case(idx, fmt.Sprintf("CASE %d %d %d %d %d", idx, crB(sc.archive), crB(sc.snapshot), sc.heights, crB(c.appFixed)))
 	o.Count(fmt.Sprintf("mode:archive=%v,snapshot=%v", sc.archive, sc.snapshot))
 	if stopped != "" {
 		o.Fail(0, "first-life-stops", stopped)
